@@ -217,7 +217,14 @@ func (ir *isoReplayer) readAll() string {
 	for name, r := range ir.rds {
 		p := ir.proc(name)
 		r := r
-		pages := ir.snap[name]
+		// a page is cached by the transaction once it was touched: read a random part of the
+		// snapshot only, so that first touches happen at every point of the path
+		var pages []uint64
+		for _, id := range ir.snap[name] {
+			if ir.rng.Intn(3) == 0 {
+				pages = append(pages, id)
+			}
+		}
 		p.Do(func() {
 			for _, id := range pages {
 				ir.e.Read(r, id)
